@@ -172,6 +172,25 @@ func (w *World) findFunc(pkgRel, name string) *ssa.Function {
 
 func (w *World) newExecWithInit() *Exec {
 	ex := newExec(w.prog)
+	// every package-level variable exists from the start (so that frames see writes to variables
+	// that no initialiser touches)
+	for _, rel := range initOrder {
+		if p := w.pkgs[rel]; p != nil {
+			var names []string
+			for n, m := range p.Members {
+				if _, ok := m.(*ssa.Global); ok {
+					names = append(names, n)
+				}
+			}
+			sort.Strings(names)
+			for _, n := range names {
+				func() {
+					defer func() { recover() }() // variables of unmodelled types are created on first use
+					ex.globalObj(p.Members[n].(*ssa.Global))
+				}()
+			}
+		}
+	}
 	for _, rel := range initOrder {
 		p := w.pkgs[rel]
 		if p == nil {
